@@ -35,6 +35,9 @@ def pmap(func, jobs, seed=0, procs=None, budget_s=None, chunksize=1):
     remaining jobs are dropped and a cap is recorded (never silently)."""
     jobs = rotate(jobs, seed)
     total = Report()
+    if budget_s is None:
+        # safety net against a hang in the code under test: a generous wall-clock cap per pool (reported as a cap, never as a violation)
+        budget_s = float(os.environ.get('VF_POOL_BUDGET') or (1500 if os.environ.get('VF_TIER', 'quick') == 'quick' else 4 * 3600))
     procs = procs or min(16, os.cpu_count() or 1)
     t0 = time.time()
     if procs == 1 or len(jobs) <= 1:
